@@ -705,19 +705,22 @@ public:
     {
         // names on the same level are always unique but it's not guaranteed for
         // names from different levels (which are concatenated to create group
-        // size parameter name). By adding `_<depth>` suffix we ensure that
-        // there will be no two identical parameter names because each level has
-        // unique suffix which is used only in case of conflicts.
-        if(std::find(
-               std::begin(existing_names),
-               std::end(existing_names),
-               desired_name)
-           != std::end(existing_names))
+        // size parameter name). In case of conflict, `_<n>` suffix is added,
+        // starting from the level depth. Different paths from the same depth
+        // can produce the same name too (e.g. `a/b_c`, `a_b/c`) so `n` is
+        // incremented until the name is unique.
+        auto name = desired_name;
+        for(auto n = level_depth; std::find(
+                                      std::begin(existing_names),
+                                      std::end(existing_names),
+                                      name)
+                                  != std::end(existing_names);
+            n++)
         {
-            return fmt::format("{}_{}", desired_name, level_depth);
+            name = fmt::format("{}_{}", desired_name, n);
         }
 
-        return desired_name;
+        return name;
     }
 
     std::string get_group_payload_size(
